@@ -2,6 +2,7 @@ import PrimaiteModel.Model.Filter
 import PrimaiteModel.Model.FilterClass
 import PrimaiteModel.Model.FilterNet
 import PrimaiteModel.Model.FilterFwd
+import PrimaiteModel.Model.FilterPower
 open Primaite Primaite.Acl Primaite.Cut Primaite.Filter
 
 /-! Line-protocol driver for the C06 element models (Model/Filter.lean).
@@ -185,7 +186,40 @@ Reachability certificate (`certifyB`, proved sound in Props/C06Reach.lean: prote
   t-certifyB → certifiedB | uncertifiedB <node>
 -/
 
+/-! ### power programs (Model/FilterPower.lean): the SAME operation lines the R-net rig performs on the device of a transitional scenario -/
+
+def pwBits (s : String) : List Bool := s.toList.map (· == '1')
+
+def pwInit : FilterPower.PNode Unit :=
+  { nd := { kind := .host, on := true, ifaces := [], acls := fun _ => Acl.empty 0 .deny, sw := () },
+    st := .on, upCd := 0, downCd := 0, upDur := 0, downDur := 0, resetting := false, linked := fun _ => false }
+
+def pwHooks : FilterPower.SoftCall → Unit → Unit := fun _ _ => ()
+
+def pwShow (n : FilterPower.PNode Unit) : String :=
+  let st := match n.st with
+    | .on => "ON" | .off => "OFF" | .booting => "BOOTING" | .shuttingDown => "SHUTTING_DOWN"
+  st ++ " " ++ String.ofList (n.nd.ifaces.map (fun i => if i.enabled then '1' else '0'))
+
+def pwStep (n : FilterPower.PNode Unit) : List String → Option (FilterPower.PNode Unit)
+  | ["pw-new", u, d, en, ln] =>
+    match u.toInt?, d.toInt? with
+    | some u, some d =>
+      let lk := pwBits ln
+      some { pwInit with upDur := u, downDur := d, linked := fun p => lk.getD p false,
+                         nd := { pwInit.nd with ifaces := (pwBits en).map (fun b => { enabled := b, mac := 0, ip := 0, mask := 0 }) } }
+    | _, _ => none
+  | ["pw-updur", u] => u.toInt?.map (fun u => { n with upDur := u })
+  | ["pw", "shutdown"] => some (FilterPower.step pwHooks n .powerOff)
+  | ["pw", "startup"] => some (FilterPower.step pwHooks n .powerOn)
+  | ["pw", "reset"] => some (FilterPower.step pwHooks n .reset)
+  | ["pw", "tick"] => some (FilterPower.step pwHooks n .tick)
+  | ["pw", "ifenable"] => some ((List.range n.nd.ifaces.length).foldl (fun m p => FilterPower.step pwHooks m (.ifEnable p)) n)
+  | ["pw-show"] => some n
+  | _ => none
+
 structure DState where
+  pw : FilterPower.PNode Unit := pwInit
   node : DNode := initNode
   topo : Topo := { nodes := [], wires := [] }
   states : List DNode := []
@@ -339,6 +373,18 @@ def stepAll (st : DState) : List String → DState × String
     else match certifyFail st.topo σ with
       | some n => (st, s!"uncertified {n}")
       | none => (st, "uncertified ?")
+  | "pw-new" :: rest => match pwStep st.pw ("pw-new" :: rest) with
+    | some n => ({ st with pw := n }, pwShow n)
+    | none => (st, "bad-op")
+  | "pw-updur" :: rest => match pwStep st.pw ("pw-updur" :: rest) with
+    | some n => ({ st with pw := n }, pwShow n)
+    | none => (st, "bad-op")
+  | "pw-show" :: rest => match pwStep st.pw ("pw-show" :: rest) with
+    | some n => ({ st with pw := n }, pwShow n)
+    | none => (st, "bad-op")
+  | "pw" :: rest => match pwStep st.pw ("pw" :: rest) with
+    | some n => ({ st with pw := n }, pwShow n)
+    | none => (st, "bad-op")
   | ws =>
     let (n', o) := step st.node ws
     ({ st with node := n' }, o)
